@@ -208,7 +208,7 @@ theorem step_flags (st : St) (op : Op) (r : Res) (hs : step st op = some r) (k :
     cases op' with
     | addVar h n t => exact absurd rfl (hv h n t)
     | addMem h n t s a => exact absurd rfl (hm h n t s a)
-    | _ => exact step_keeps insens_flags (addConfig_keeps_flags k) st _ r trivial hs' rfl (Or.inr hrx) c hk trivial
+    | _ => exact step_keeps insens_flags (addConfig_keeps_flags k) st _ r trivial hs' rfl (Or.inr hrx) (Or.inl (fun _ _ => rfl)) c hk trivial
   cases op with
   | addVar h n t =>
     simp only [step] at hs
